@@ -14,6 +14,6 @@ START=$(date +%s)
 ./run.sh "$ID" "$TIER" > /tmp/mutant.out 2> /tmp/mutant.err
 RC=$?
 END=$(date +%s)
-echo "mutant=$(basename "$PATCH") check=$ID tier=$TIER exit=$RC secs=$((END-START)) $(grep -c '^VIOLATION' /tmp/mutant.out) violation lines"
-grep -m2 -A1 '^VIOLATION' /tmp/mutant.out; grep -m3 'family=' /tmp/mutant.err
+echo "mutant=$(basename "$PATCH") check=$ID tier=$TIER exit=$RC secs=$((END-START)) $(grep -a -c '^VIOLATION' /tmp/mutant.out) violation lines"
+grep -a -m2 -A1 '^VIOLATION' /tmp/mutant.out; grep -a -m3 'family=' /tmp/mutant.err
 exit $RC
